@@ -636,7 +636,7 @@ def WriteStep (db db' : Db) : Prop :=
      ∨ (AL.get? db'.map k = none ∧ ∃ e, AL.get? db.map k = some e ∧ e.state = .new))
 
 theorem updState_ne_ok (s : Status) : updState s ≠ .ok := by cases s <;> decide
-theorem updState_new (s : Status) (h : updState s = .new) : s = .new := by cases s <;> first | rfl | (exact absurd h (by decide))
+theorem updState_new_inv (s : Status) (h : updState s = .new) : s = .new := by cases s <;> first | rfl | (exact absurd h (by decide))
 
 theorem writeStep_refl (db : Db) : WriteStep db db := ⟨rfl, [], fun _ _ => rfl, Or.inl rfl⟩
 
@@ -645,7 +645,7 @@ theorem writeStep_setValueVersion_existing (db : Db) (k v : Bytes) (ver : Int) (
   refine ⟨rfl, k, fun k' hk => AL.get?_put_other _ _ (Ne.symm hk), Or.inr (Or.inl ⟨_, AL.get?_put_same _ _ _, updState_ne_ok _, ?_⟩)⟩
   intro hnew e he
   rw [hg] at he; cases he
-  exact updState_new _ hnew
+  exact updState_new_inv _ hnew
 
 theorem writeStep_setValueVersion_fresh (db : Db) (k v : Bytes) (ver : Int) (va ka op : Nat)
     (hg : AL.get? db.map k = none) : WriteStep db (db.setValueVersion k v ver .new va ka op) := by
